@@ -121,6 +121,9 @@ pub assume_specification<P: AsRef<std::path::Path>>[ std::fs::metadata ](p: P) -
 pub uninterp spec fn file_metadata_result(f: &std::fs::File) -> Result<std::fs::Metadata, std::io::Error>;
 pub assume_specification[ std::fs::File::metadata ](f: &std::fs::File) -> (r: Result<std::fs::Metadata, std::io::Error>)
     ensures r == file_metadata_result(f);
+#[verifier::external_type_specification]
+#[verifier::external_body]
+pub struct ExSystemTime(std::time::SystemTime);
 pub assume_specification[ std::fs::Metadata::len ](m: &std::fs::Metadata) -> (r: u64)
     ensures r == metadata_len(m);
 
